@@ -40,6 +40,8 @@ opts (all optional):
     "page_break":  "page" (default)  -> a paragraph holding \\page        | "sbkpage" -> \\pard\\plain..\\sect\\sectd\\sbkpage
     "escape":      "u" (default)     -> every non-ASCII char as \\uN? (signed 16 bit, non-BMP as surrogate pair)
                    "hex"             -> chars that exist in cp1252 as \\'xx, everything else as \\uN?
+                   "uhex"            -> chars that exist in cp1252 as \\uN\\'xx (the \\'xx byte is the one-byte fallback; what
+                                        Word writes), everything else as \\uN?
     "list_style":  "listtext" (default) | "pntext"
     "field_style": "word" (default, instruction wrapped in a group as Word writes) | "flat" ({\\*\\fldinst HYPERLINK "u"})
     "pict_wrap":   "none" (default)  | "shppict" -> {\\*\\shppict{\\pict ..}} as Word writes
@@ -82,8 +84,8 @@ def _u(n: int) -> str:
 
 def rtf_escape(text: str, mode: str = "u") -> str:
     """Escape arbitrary text for use inside an RTF group. TAB becomes \\tab, LF becomes \\line."""
-    if mode not in ("u", "hex"):
-        raise ValueError("escape mode must be 'u' or 'hex'")
+    if mode not in ("u", "hex", "uhex"):
+        raise ValueError("escape mode must be 'u', 'hex' or 'uhex'")
     out = []
     for ch in text:
         o = ord(ch)
@@ -109,6 +111,14 @@ def rtf_escape(text: str, mode: str = "u") -> str:
                     b = None
                 if b is not None:
                     out.append("\\'%02x" % b[0])
+                    continue
+            elif mode == "uhex" and o <= 0xFFFF:
+                try:
+                    b = ch.encode("cp1252")
+                except UnicodeEncodeError:
+                    b = None
+                if b is not None:
+                    out.append("\\u%d\\'%02x" % (o - 0x10000 if o >= 0x8000 else o, b[0]))
                     continue
             if o > 0xFFFF:
                 o -= 0x10000
@@ -173,7 +183,7 @@ class _R:
             raise ValueError("unknown rtf opts: %s" % sorted(o))
         if self.page_break not in ("page", "sbkpage"):
             raise ValueError("page_break")
-        if self.escape not in ("u", "hex"):
+        if self.escape not in ("u", "hex", "uhex"):
             raise ValueError("escape")
         if self.list_style not in ("listtext", "pntext"):
             raise ValueError("list_style")
